@@ -153,6 +153,72 @@ func c18Kinds[V any](vs *ValSpec[V], tier string) []UniverseDef {
 		u.Name += tag
 		return u
 	}})
+	if keyOnly {
+		// every key width: an encoder that writes a machine word into a narrower buffer leaves the buffer's allocation
+		u16 := intOps[uint16](func(k uint16) []byte { _, b := art.UnsignedBinaryKey[uint16]{}.Transform(k); return b })
+		out = append(out, UniverseDef{Name: "unsigned[uint16]/GC5" + tag, Build: func() *Universe {
+			u := NewNumUniverseD("unsigned", "uint16", NumSpec[uint16]{Name: "GC5", Free: []uint16{0, 1, 256, 257, math.MaxUint16}, Probes: []uint16{2}}, u16,
+				func(spec *KeySpec[uint16], index map[string]int) Driver {
+					return NewDriverV[uint16, V](art.NewUnsignedBinaryTree[uint16, V](), spec, index, vs)
+				})
+			u.Name += tag
+			return u
+		}})
+		u32 := intOps[uint32](func(k uint32) []byte { _, b := art.UnsignedBinaryKey[uint32]{}.Transform(k); return b })
+		out = append(out, UniverseDef{Name: "unsigned[uint32]/GC5" + tag, Build: func() *Universe {
+			u := NewNumUniverseD("unsigned", "uint32", NumSpec[uint32]{Name: "GC5", Free: []uint32{0, 1, 1 << 20, 1<<20 + 1, math.MaxUint32}, Probes: []uint32{2}}, u32,
+				func(spec *KeySpec[uint32], index map[string]int) Driver {
+					return NewDriverV[uint32, V](art.NewUnsignedBinaryTree[uint32, V](), spec, index, vs)
+				})
+			u.Name += tag
+			return u
+		}})
+		u8 := intOps[uint8](func(k uint8) []byte { _, b := art.UnsignedBinaryKey[uint8]{}.Transform(k); return b })
+		out = append(out, UniverseDef{Name: "unsigned[uint8]/GC5" + tag, Build: func() *Universe {
+			u := NewNumUniverseD("unsigned", "uint8", NumSpec[uint8]{Name: "GC5", Free: []uint8{0, 1, 127, 128, 255}, Probes: []uint8{2}}, u8,
+				func(spec *KeySpec[uint8], index map[string]int) Driver {
+					return NewDriverV[uint8, V](art.NewUnsignedBinaryTree[uint8, V](), spec, index, vs)
+				})
+			u.Name += tag
+			return u
+		}})
+		i8 := intOps[int8](func(k int8) []byte { _, b := art.SignedBinaryKey[int8]{}.Transform(k); return b })
+		out = append(out, UniverseDef{Name: "signed[int8]/GC5" + tag, Build: func() *Universe {
+			u := NewNumUniverseD("signed", "int8", NumSpec[int8]{Name: "GC5", Free: []int8{math.MinInt8, -1, 0, 1, math.MaxInt8}, Probes: []int8{2}}, i8,
+				func(spec *KeySpec[int8], index map[string]int) Driver {
+					return NewDriverV[int8, V](art.NewSignedBinaryTree[int8, V](), spec, index, vs)
+				})
+			u.Name += tag
+			return u
+		}})
+		i16 := intOps[int16](func(k int16) []byte { _, b := art.SignedBinaryKey[int16]{}.Transform(k); return b })
+		out = append(out, UniverseDef{Name: "signed[int16]/GC5" + tag, Build: func() *Universe {
+			u := NewNumUniverseD("signed", "int16", NumSpec[int16]{Name: "GC5", Free: []int16{math.MinInt16, -1, 0, 1, 256}, Probes: []int16{2}}, i16,
+				func(spec *KeySpec[int16], index map[string]int) Driver {
+					return NewDriverV[int16, V](art.NewSignedBinaryTree[int16, V](), spec, index, vs)
+				})
+			u.Name += tag
+			return u
+		}})
+		i64 := intOps[int64](func(k int64) []byte { _, b := art.SignedBinaryKey[int64]{}.Transform(k); return b })
+		out = append(out, UniverseDef{Name: "signed[int64]/GC5" + tag, Build: func() *Universe {
+			u := NewNumUniverseD("signed", "int64", NumSpec[int64]{Name: "GC5", Free: []int64{math.MinInt64, -1, 0, 1, 1 << 40}, Probes: []int64{2}}, i64,
+				func(spec *KeySpec[int64], index map[string]int) Driver {
+					return NewDriverV[int64, V](art.NewSignedBinaryTree[int64, V](), spec, index, vs)
+				})
+			u.Name += tag
+			return u
+		}})
+		f32 := floatOps[float32](func(k float32) []byte { _, b := art.FloatBinaryKey[float32]{}.Transform(k); return b })
+		out = append(out, UniverseDef{Name: "float[float32]/GC5" + tag, Build: func() *Universe {
+			u := NewNumUniverseD("float", "float32", NumSpec[float32]{Name: "GC5", Free: []float32{float32(math.NaN()), -1.5, float32(math.Copysign(0, -1)), 0, float32(math.Inf(1))}, Probes: []float32{1}}, f32,
+				func(spec *KeySpec[float32], index map[string]int) Driver {
+					return NewDriverV[float32, V](art.NewFloatBinaryTree[float32, V](), spec, index, vs)
+				})
+			u.Name += tag
+			return u
+		}})
+	}
 	fops := floatOps[float64](func(k float64) []byte { _, b := art.FloatBinaryKey[float64]{}.Transform(k); return b })
 	out = append(out, UniverseDef{Name: "float[float64]/GC5" + tag, Build: func() *Universe {
 		u := NewNumUniverseD("float", "float64", NumSpec[float64]{Name: "GC5", Free: []float64{math.NaN(), -1.5, math.Copysign(0, -1), 0, math.Inf(1)}, Probes: []float64{1}}, fops,
